@@ -8,7 +8,7 @@ from ..jsonx import Opaque
 from .c05 import env_of
 
 PLAN = {
-    "quick": {"shards": 8, "cases": 220, "min_nontrivial": 1200, "budget_s": 240},
+    "quick": {"shards": 8, "cases": 600, "min_nontrivial": 2500, "budget_s": 300},
     "thorough": {"shards": 16, "cases": 3500, "min_nontrivial": 30000, "budget_s": 1500},
 }
 RULE = ("schemas with nested schemas, config types, lists of schemas / config types (index 0, middle, last, equal "
@@ -20,7 +20,7 @@ RULE = ("schemas with nested schemas, config types, lists of schemas / config ty
         "cincoconfig.ValidationError (a ValueError), ref_path == the declared path (a.b[2].c, d[key]) and a message "
         "starting with that path (plus ' (name)' for a friendly name); non-trivial = >= 3 rejections judged over >= 2 "
         "routes; distinct = distinct (schema, probes)")
-REQUIRED = ("pos:dict-key", "rejections_judged", "route:attr", "route:dotted", "route:ctor", "route:load_tree", "route:loads", "pos:nested",
+REQUIRED = ("reordered_list_probes", "pos:dict-key", "rejections_judged", "route:attr", "route:dotted", "route:ctor", "route:load_tree", "route:loads", "pos:nested",
             "pos:ctype", "pos:list-item", "pos:dict-entry", "pos:list-scalar", "pos:subconfig-slot", "friendly_names_judged",
             "after_prior_load")
 ASSUMPTIONS = ["unknown keys (AttributeError) and non-map top-level documents are not 'a value for a declared field'",
@@ -75,12 +75,12 @@ def generate(rng, ctx):
         probes.append({"pos": tgt["pos"], "path": tgt["path"], "bad": bad, "routes": rng.sample(routes, rng.choice([2, 3, 5])),
                        "index": rng.choice([0, 0, 1, 2]), "nitems": rng.choice([1, 2, 3]), "equal_items": rng.random() < 0.5,
                        "key": rng.choice(["k1", "kk", "a.b", "K"]), "fmt": rng.choice(FMT_FOR_LOADS),
-                       "prior_load": rng.random() < 0.4})
+                       "prior_load": rng.random() < 0.4, "reorder": rng.choice([None, None, "insert0", "pop0", "reverse"])})
     return {"schema": schema, "probes": probes}
 
 
 def probes(ctx):
-    base = {"index": 0, "nitems": 2, "equal_items": False, "key": "k1", "fmt": "json", "prior_load": False}
+    base = {"index": 0, "nitems": 2, "equal_items": False, "key": "k1", "fmt": "json", "prior_load": False, "reorder": None}
     # K1: default instance of a config-type field has no key
     s1 = {"kind": "schema", "key": "", "fields": [{"kind": "ctype", "key": "one", "name": "One", "schema": {
         "kind": "schema", "key": "", "fields": [{"kind": "field", "key": "age", "family": "int", "params": {}}]}}]}
@@ -153,6 +153,8 @@ def run(case, ctx, res):
                 res.count("probes_not_applicable")
                 continue
             err, want_path, fname, feat = out
+            if feat.endswith(":after-reorder"):
+                res.count("reordered_list_probes")
             res.count("rejections_judged")
             res.count("route:" + route)
             res.count("pos:" + ("nested" if pr["pos"] == "root" else pr["pos"]))
@@ -268,6 +270,34 @@ def attempt(cc, ctx, drv, pr, route, rng):
                 cfg.load_tree(copy.deepcopy(base), validate=False)
             except Exception:
                 return None
+    if route == "attr" and list_levels and pr.get("reorder"):
+        # the stored list is re-ordered in place before the rejected assignment: the error must name the item's
+        # position at the time of the error
+        try:
+            lst = spec.get_path(cfg, list_path)
+            n0 = len(lst)
+            if pr["reorder"] == "insert0":
+                lst.insert(0, copy.deepcopy(items[0]))
+                new_idx = idx + 1
+            elif pr["reorder"] == "pop0" and idx > 0:
+                lst.pop(0)
+                new_idx = idx - 1
+            elif pr["reorder"] == "reverse" and n0 > 1:
+                lst.reverse()
+                new_idx = n0 - 1 - idx
+            else:
+                new_idx = idx
+        except Exception:
+            return None
+        if new_idx != idx:
+            old = "%s[%d]" % (list_path, idx)
+            new = "%s[%d]" % (list_path, new_idx)
+            concrete = new + concrete[len(old):]
+            want = new + want[len(old):]
+            owner_tmpl, leaf = spec.split_parent(concrete)
+            if feat.startswith("list-item"):
+                feat = "list-item:after-reorder"
+            res_reorder = True
     if route in ("attr", "dotted") and _default_ctype_on_path(root, concrete, base if (list_levels or pr["prior_load"]) else {}):
         feat = "ctype-default-instance"
     try:
